@@ -16,21 +16,37 @@ ENTRY = dict(
                    "returned association list has distinct keys and, as a finite map outcome -> Q, equals the push-forward of an "
                    "independently defined recursive path semantics (measurement splits with weights 1-p1/p1 and clears/sets its bit, "
                    "later writes overwrite, reset splits and leaves bits alone), for every function of the outcome; it sums to 1; with "
-                   "any tolerance >= 0 and 0<=p1<=1 the mass is within (#truncated branches)*tol of 1 and every reported outcome has "
-                   "positive probability; conditioned operations / clbits on non-measurements anywhere give ValueError; the "
-                   "reversed-order deletions never go out of range. The quantum step itself is NOT proved: the model is instantiated "
-                   "with an exact Q(sqrt2)(i) state-vector simulator written in Coq and evaluated against the implementation on ~900 "
-                   "generated circuits per run (keys exactly and in dict order, probabilities within 1e-12), and every case is also "
-                   "compared with an independent numpy density-matrix simulator.",
+                   "any tolerance >= 0 (in particular the source's 1e-16) and 0<=p1<=1 EVERY outcome's (every event's) returned probability "
+                   "is at most its path-law probability and at most (#truncated branches)*tol below it (c13_outcome_bound / c13_event_bound, "
+                   "instantiated at the extracted _TOLERANCE in c13_qsim_outcome_bound), the mass is within the same bound of 1 and every "
+                   "reported outcome has positive probability; conditioned operations / clbits on non-measurements anywhere give "
+                   "ValueError; the reversed-order deletions never go out of range. The quantum step itself is NOT proved: the model is "
+                   "instantiated with an exact Q(sqrt2)(i) state-vector simulator written in Coq and evaluated against the implementation on "
+                   "~900 generated circuits per run (as finite maps: key sets exactly, probabilities within 1e-12), and every case is also "
+                   "compared with an independent numpy density-matrix simulator (also for arbitrary unitaries and for ExactSampler runs over "
+                   "several parametrised circuits).",
         level_note=STD_NOTE + "No axioms. The Born rule / Qiskit's Statevector semantics is not formalised: it enters as the abstract "
-                   "instrument of the theorems and as Common/QSim.v (definitions, audited per case for exact rational probabilities) in the comparison.",
+                   "instrument of the theorems and as Common/QSim.v (definitions, audited per case for exact rational probabilities) in the comparison. "
+                   "OBSERVATION (outside the property's quantifier 'unitary gates, barriers, projective measurements and resets'): a reset nested "
+                   "inside a composite instruction (qc.initialize(...), or a sub-circuit with reset appended via to_instruction()) is sent to "
+                   "Statevector._evolve_instruction, which SAMPLES one outcome: e.g. h(0); cx(0,1); initialize([0,1],0); measure([0,1],[0,1]) returns "
+                   "{3:1.0} or {1:1.0} varying between calls instead of {1:.5, 3:.5}. Neither the generator nor the model produces such inputs; "
+                   "composites of unitaries (to_gate) are generated and modelled by inlining their definition. "
+                   "OBSERVATION: ExactSampler().run refuses circuits without clbits / without a Measure (Qiskit's BaseSamplerV1 validation), although "
+                   "the class docstring says all classical bits may remain unused. The order of the returned dict is mirrored by the model "
+                   "(Example c13_ex_order) but is not part of the verdict (compared as maps).",
         assumptions=[
             "Model/Sim.v is a hand-written model of simulate_statevector_outcomes (dict in insertion order, k0/k1 masks, pending delete/insert, "
             "cleanup, truncation |p| <= _TOLERANCE, refusals) and of ExactSampler.run (Qiskit's BaseSamplerV1 validation: no clbits / no Measure "
             "-> ValueError, monitored as an oracle contract); tied to the source by the C13 correspondence and the extracted _TOLERANCE / isclose-shape facts",
-            "Qiskit's Statevector.probabilities / evolve / _evolve_instruction (barrier = identity) implement the instrument: compared per case with "
-            "Common/QSim.v (Clifford gate set x y z h s sdg sx sxdg cx cz swap, exact arithmetic) inside Coq and with a numpy density-matrix simulator",
+            "Qiskit's Statevector.probabilities / evolve / _evolve_instruction (barrier = identity; a composite gate of unitaries = its definition) "
+            "implement the instrument: compared per case with Common/QSim.v (gate set x y z h s sdg sx sxdg cx cz swap ccx, exact arithmetic) inside Coq "
+            "and with a numpy density-matrix simulator",
             "p0 is modelled as 1 - p1 (the implementation reads both from sv.probabilities); binary64 rounding is not modelled (results compared within 1e-12)",
-            "arbitrary (non-Clifford) unitaries and branches near the cut-off are only compared with the harness's density-matrix oracle (1e-9)",
+            "arbitrary unitaries, parametrised rotations, branches near the cut-off and multi-circuit / parameter_values sampler runs are only compared "
+            "with the harness's density-matrix oracle (1e-9)",
+            "the truncation count n of c13_outcome_bound / c13_pruned_bound is a ghost counter of the model, not observable on the implementation",
+            "composite instructions containing resets/measurements (initialize, to_instruction with reset) and opaque operations holding clbits are "
+            "outside the property's quantifier: not generated, never flagged by judge (see level_note for the observed behaviour)",
         ],
     )
